@@ -51,6 +51,8 @@ def mosaic_cases(draw, tier, max_size=900, max_inputs=6):
         "scale": draw(st.sampled_from([1e-3, 2.7e-4, 0.01])),
         "rot": rot,
         "tile_format": draw(st.sampled_from(["fits", "fits", "npy"])),
+        # the reference pixel need not sit on a pixel centre: a common fractional part for all inputs
+        "crpix_frac": [draw(st.sampled_from([0.0, 0.0, 0.5, 0.3, 0.123456, 0.7])), draw(st.sampled_from([0.0, 0.0, 0.5, 0.3, 0.9]))],
         "k": draw(st.sampled_from([1, 1, 2, 3, 4])),
     }
 
@@ -88,7 +90,8 @@ def header_for(case, x0, y0, w, h, bottom_up):
     hd["CUNIT1"] = "deg"
     hd["CUNIT2"] = "deg"
     # reference pixel: the mosaic centre, in 1-based top-down pixel coordinates of the mosaic
-    crx, cry = W / 2 + 0.5, H / 2 + 0.5
+    fx, fy = case.get("crpix_frac", [0.0, 0.0])
+    crx, cry = W // 2 + 0.5 + fx, H // 2 + 0.5 + fy
     hd["CDELT1"] = -s
     if not bottom_up:
         # top-down storage: increasing row = decreasing declination: negative parity
